@@ -176,6 +176,30 @@ CLAIMED = {
     note="Runs end at Operation::Branch and at intrinsics (claims behind them are vacuous; the strict verdict is informative only); one "
          "width per name, no SSA; which scalar is the stack pointer is taken from falcon (C20's subject).",
     technique="Lean-verified certificate checker (linear forms modulo 2^w) run on the real analysis outputs"),
+ "C18": dict(
+    category="proof",
+    text="Lean theorems over a mirror model of il/location.rs, Function::locations and Program::function: forward and backward answer "
+         "one declarative successor relation and are therefore converse; locations() enumerates exactly the instructions, empty blocks "
+         "and edges without duplicates; the forward closure from from_function equals CFG reachability from the entry block; the owned "
+         "round trip is the identity on the program and on any program with equal functions at equal indices (a clone); from_address "
+         "is sound and complete. Tied to the code by a three-way correspondence check on random functions and programs.",
+    design_ref="DESIGN.md §6 C18",
+    note="For all well-formed functions (WFf: unique block/instruction/edge indices, edges between existing blocks) and all programs "
+         "built by add_function; reference identity of Ref locations is modelled by value equality, as Rust's derived Eq does; with "
+         "duplicate instruction indices (outside WFf) the model mirrors first-/last-match and only the model is compared.",
+    technique="Lean 4 proof of a mirror model + differential correspondence check"),
+ "C09": dict(
+    category="proof",
+    text="Lean theorems about a literal mirror of the work-list loop of fixed_point_{forward,backward}_options, generic in locations, "
+         "states and succs/preds/trans/join/cmp: keys = reachable locations; every successful strict run satisfies the data-flow "
+         "equations without any monotonicity assumption; a re-computation that is not >= the stored state yields FixedPointOrdering; "
+         "termination within 1+|Reach|(h+1)(D+1) iterations; for monotone analyses with join = lub the run returns exactly the least "
+         "solution; both solvers instantiated over the C18 location model. Tied to the code by a three-way correspondence check with "
+         "table-driven analyses (spec = Kleene iteration).",
+    design_ref="DESIGN.md §6 C09",
+    note="Hypotheses are named in the theorems (ConvR, LawfulCmp, JoinLub, Mono, Total, rank); HashMap/VecDeque are modelled as lists; "
+         "with force only the weaker >= claim holds, by design.",
+    technique="Lean 4 proof of a mirror model (loop invariants) + differential correspondence check"),
 }
 
 checks = []
